@@ -117,6 +117,13 @@ def long_programs(tier):
         # not block count
         out.append((n, {"mode": "A", "vars": {}, "subs": {}, "main": deep_expr(n)}, "deep-expr", True, 2,
                     {"n": n, "n_over_900": False, "depth_over_150": n > 150, "depth_over_450": n > 450}))
+    # many variables, some of them with requested slot ids, within the 256-slot limit
+    for n, nreq in ([(200, 100), (256, 1), (256, 128), (130, 64)] if tier == "quick" else
+                    [(200, 100), (256, 1), (256, 128), (256, 255), (256, 256), (130, 64), (129, 128), (255, 200)]):
+        vs = {("v%d" % i): (["u", 255 - i] if i < nreq else "u") for i in range(n)}
+        main = ["Seq"] + [["Store", v, ["Int", 1]] for v in vs] + [["Load", "v0"]]
+        out.append((n, {"mode": "A", "vars": vs, "subs": {}, "main": main}, "many-slots", True, 2,
+                    {"n": n, "n_over_900": False, "requested": nreq}))
     for n in ([200, 550] if tier == "quick" else [100, 400, 800, 1100]):
         main = ["Seq"] + [["If", ["Int", 1], ["TickS", 1]]] * n + [["Int", 1]]
         out.append((n, {"mode": "A", "vars": {}, "subs": {}, "main": main}, "long-if-seq", True, 5,
